@@ -7,6 +7,42 @@ HERE = os.path.dirname(os.path.dirname(os.path.abspath(__file__)))
 
 ALL = ['C%02d' % i for i in range(1, 21)]
 
+# what the drivers gained after the table below was written (rounds 3-5); appended to the level text
+EXTRA = {
+    'C01': '`context` at every chain position, embedded and strict all-optional layers, a plain sibling route after every '
+           'configuration, parent/child middleware classes, a functools.wraps wrapper around an already inspected function.',
+    'C02': 'layer LG (injectables named like every identifier harvested from the generated code - found the name capture '
+           'fixed in 529e1c9), doubled-slash / absent-optional / percent-escape URL values, second binding of the same '
+           'route into an application without the first one\'s resources, ghosts appended to the caller\'s lists after hand-over.',
+    'C03': 'subclass types, duplicates in inner lists, a parameter/provides layer, sibling-route and catch-all-route traces.',
+    'C04': 'two instances of a non-unique provider, double conflicts, render_error signatures at three installation sites.',
+    'C05': 'digit 0, percent escapes, non-interned mode strings, values polluted after comparison, embedded placement.',
+    'C06': 'mixed-case method declarations, a raw-method request type, typed bindings with a 5000-digit numeral, render '
+           'functions on odd routes, special-character branch paths, caller\'s lists mutated after hand-over.',
+    'C07': 'typed and dotted-literal shapes, routes pre-bound elsewhere, a mount point, dot segments, raw non-UTF-8 queries.',
+    'C08': 'handlers combining the documented class attributes, a method-restricted sibling, slash redirects with raw '
+           'query bytes, typed routes with unconvertible segments, an other-application letter in the histories.',
+    'C09': 'lone surrogates, the content_type option, path/host carriers on the debug page, a route without rebound '
+           'render_error, an unregistered status code, HEAD and OPTIONS.',
+    'C10': 'three embedding styles (constructor, add(entry, 0), wrapper created before the routes), one application '
+           'embedded twice, look-alike middleware types, and a direct comparison of every route\'s merged middleware list '
+           'with ref/flatten.py (the flat application shares clastic\'s merge).',
+    'C11': 'negative add() index (found the defect fixed in e3b8436), unusable WSGI wrappers as failing adds, a bystander '
+           'application (non-breaking error before every probe round, serve() on the target).',
+    'C12': 'per-request Host, an empty `*` binding mutated by the endpoint, Accept-negotiated errors and cookie '
+           'login/logout kinds with a one-request history before every execution.',
+    'C13': 'streaming JSON renderers, surrogate error text, a subclass wrapper type, a copying request type for reroutes.',
+    'C14': 'time zones rotate over the shards, nested mount, fractional mtimes, name clashes across search paths.',
+    'C15': 'extraction middlewares are observed by the endpoints, URL/form name clashes, malformed cookies, non-mapping contexts.',
+    'C16': 'deterministic secret seam, time zones, logout, deprecated spelling, non-ASCII text secret with narrowed-charset '
+           'forgeries, a Redirector-rendered route.',
+    'C17': 'non-GET methods, declared non-UTF-8 charsets, hostile docstring, exec-defined endpoint, long non-ASCII text.',
+    'C18': 'argument-less exceptions, a bare cookie-middleware subclass, provides given as frozenset / keys view / list.',
+    'C19': 'Reservoir(data=...) start states under every random answer sequence, live handler swap and late add steps, a '
+           'second application and a rerouting route, the caller\'s middleware list mutated after construction.',
+    'C20': 'extension methods, relative monitored files, whitespace-only and undecodable error texts.',
+}
+
 # id -> (engine, technique, level text, level note, design ref)
 CHECKS = {
     'C05': ('E1-product-enumerator',
@@ -253,6 +289,8 @@ def main():
         if cid not in CHECKS:
             continue
         engine, tech, text, note, ref = CHECKS[cid]
+        if cid in EXTRA:
+            text = text + ' Added by the later rounds of seeded changes (DESIGN.md 9.5): ' + EXTRA[cid]
         checks.append({
             'property_id': cid,
             'quick_cmd': '/venv/bin/python check.py %s --tier quick' % cid,
